@@ -1,5 +1,6 @@
 //vf:pkg github.com/saucelabs/forwarder
 //vf:extra github.com/saucelabs/forwarder/internal/martian=../common/martianpipe.go
+//vf:extra github.com/saucelabs/forwarder=../common/fwdutil.go
 package forwarder
 
 // C04: the real modifier stack with every combination of the four access controls.
@@ -11,76 +12,19 @@ package forwarder
 import (
 	"bufio"
 	"bytes"
-	"context"
-	"errors"
 	"io"
-	"net"
 	"net/http"
 	"net/url"
-	"strings"
 	"time"
 
 	"github.com/saucelabs/forwarder/internal/martian"
 
 	"github.com/saucelabs/forwarder/internal/vfrt"
-	"github.com/saucelabs/forwarder/log"
 	"github.com/saucelabs/forwarder/middleware"
 	"github.com/saucelabs/forwarder/ruleset"
 )
 
-type vfLog struct{}
-
-func (vfLog) Error(msg string, args ...any)                             {}
-func (vfLog) Warn(msg string, args ...any)                              {}
-func (vfLog) Info(msg string, args ...any)                              {}
-func (vfLog) Debug(msg string, args ...any)                             {}
-func (vfLog) ErrorContext(ctx context.Context, msg string, args ...any) {}
-func (vfLog) WarnContext(ctx context.Context, msg string, args ...any)  {}
-func (vfLog) InfoContext(ctx context.Context, msg string, args ...any)  {}
-func (vfLog) DebugContext(ctx context.Context, msg string, args ...any) {}
-func (l vfLog) With(args ...any) log.StructuredLogger                   { return l }
-
-// vfRoundTripper is the scripted next hop: it counts what reaches it.
-type vfRoundTripper struct {
-	calls int
-	last  *http.Request
-}
-
-func (rt *vfRoundTripper) RoundTrip(req *http.Request) (*http.Response, error) {
-	rt.calls++
-	rt.last = req
-	return &http.Response{StatusCode: 200, Status: "200 OK", Proto: "HTTP/1.1", ProtoMajor: 1, ProtoMinor: 1,
-		Header: http.Header{"X-Origin": {"1"}}, Body: io.NopCloser(strings.NewReader("ok")), ContentLength: 2, Request: req}, nil
-}
-
-var vfDials int
-
-type vfMatcher struct{ verdict bool }
-
-func (m vfMatcher) Match(string) bool { return m.verdict }
-
-var vfMetricErrors int
-
-func vfStubMetricsError(m *httpProxyMetrics, reason string) { vfMetricErrors++ }
-
 //vf:override (*github.com/saucelabs/forwarder.httpProxyMetrics).error = vfStubMetricsError
-
-func vfNewHTTPProxy(cfg HTTPProxyConfig) *HTTPProxy {
-	hp := &HTTPProxy{config: cfg, log: vfLog{}, localhost: []string{"localhost", "0.0.0.0", "::"}, transport: &vfRoundTripper{}}
-	if vfrt.Symbolic() {
-		hp.metrics = &httpProxyMetrics{}
-	} else {
-		hp.metrics = newHTTPProxyMetrics(nil, "")
-	}
-	if err := hp.configureProxy(); err != nil {
-		vfrt.Unsupported("configureProxy failed")
-	}
-	hp.proxy.DialContext = func(context.Context, string, string) (net.Conn, error) {
-		vfDials++
-		return nil, &net.OpError{Op: "dial", Net: "tcp", Err: errors.New("connection refused")}
-	}
-	return hp
-}
 
 // vfTimeFrames returns entries that always / never match, so that the native clock is irrelevant.
 func vfTimeFrames(allow bool) []ruleset.TimeFrameEntry {
@@ -96,24 +40,6 @@ func vfTimeFrames(allow bool) []ruleset.TimeFrameEntry {
 }
 
 var vfStackHosts = []string{"localhost", "LocalHost", "127.0.0.1", "[::1]", "example.com", "10.1.2.3"}
-
-func vfHeaderEqual(a, b http.Header) bool {
-	if len(a) != len(b) {
-		return false
-	}
-	for k, va := range a {
-		vb, ok := b[k]
-		if !ok || len(va) != len(vb) {
-			return false
-		}
-		for i := range va {
-			if va[i] != vb[i] {
-				return false
-			}
-		}
-	}
-	return true
-}
 
 //vf:harness property=C04 nopanic reach=stack-refused-451,stack-refused-407,stack-refused-403,stack-passed steps=6000000
 func vfH_C04_stack() {
